@@ -7,10 +7,12 @@ namespace Tie
 example : Generated.doneChanCap = "0" := by decide
 /-- the semaphore has `maxParallel` slots -/
 example : Generated.semaphoreCap = "g.maxParallel" := by decide
-/-- the scheduler status is written only by the scheduler goroutine (`Run`, `skipParents` called from it) -/
-example : Generated.statusWrites = ["Run: g.Vertices[iderr.ID].status = runDone", "Run: v.status = runInProgress",
-  "Run: v.status = runInProgress", "skipParents: c.status = runSkip"] := by decide
-/-- the task goroutine acquires a semaphore slot first and releases it in a deferred call -/
-example : GoModel.hasPrefix (GoModel.b (Generated.goroutineHeads.getD 2 "")) (GoModel.b "send semaphore; defer func{...}") = true := by decide
+/-- the scheduler status is written only by the scheduler goroutine (`Run`, `skipParents` called from it):
+which function moves a vertex to which status -/
+example : Generated.statusWrites = ["Run: runDone", "Run: runInProgress", "skipParents: runSkip"] := by decide
+/-- some goroutine started by `Run` (the task goroutine) acquires a semaphore slot first and releases it in a
+deferred call -/
+example : (Generated.goroutineHeads.any fun h =>
+    GoModel.hasPrefix (GoModel.b h) (GoModel.b "send semaphore; defer func{...}")) = true := by decide
 example : Generated.runStatusOrder = ["runPending", "runInProgress", "runSkip", "runDone"] := by decide
 end Tie
